@@ -282,8 +282,14 @@ def gen_fit_case(rng, models, kind, force=None):
     ub_int = bool(rng.random() < 0.25)
     if ub_int:                       # integer-typed upper bounds next to fractional lower bounds (dtype must not leak)
         ub = [float(np.ceil(u)) if np.ceil(u) > v else float(np.ceil(u) + 1) for u, v in zip(ub, tsub)]
+    if force.get("box"):            # relative to the generating values: [(lo factor, hi factor), ...] per fitted parameter
+        lb = [float(v * f[0]) for v, f in zip(tsub, force["box"])]
+        ub = [float(v * f[1]) for v, f in zip(tsub, force["box"])]
+        ub_int = False
     if kind == "truth":
         start = list(tsub)
+    elif force.get("start"):
+        start = [float(v * f) for v, f in zip(tsub, force["start"])]
     else:
         start = [float(rng.uniform(l, u)) for l, u in zip(lb, ub)]
         for i in range(len(start)):                      # sometimes start exactly on a face of the box
@@ -313,6 +319,16 @@ def fit_corpus():
                                                x0=[990.0, 10.0, 0.0], T=0.5, nobs=26, t_shift=2020.0)),
         gen_fit_case(r, ["SIR"], "random", dict(obs=["I"], target=["beta", "gamma"], loss="NormalLoss", truth=[60.0, 26.0, 1000.0],
                                                 x0=[990.0, 10.0, 0.0], T=0.5, nobs=26, t_shift=2020.0)),
+        # one fitted parameter in a wide box (the cost has several valleys across it): the start decides where the fit ends
+        gen_fit_case(r, ["Lotka_Volterra"], "random", dict(obs=["x", "y"], target=["delta"], loss="SquareLoss", truth=[1.0, 0.1, 1.5, 0.075],
+                                                           x0=[10.0, 5.0], T=15.0, nobs=30, box=[(0.01 / 0.075, 1.0 / 0.075)], start=[1.05])),
+        gen_fit_case(r, ["Lotka_Volterra"], "truth", dict(obs=["x", "y"], target=["delta"], loss="SquareLoss", truth=[1.0, 0.1, 1.5, 0.075],
+                                                          x0=[10.0, 5.0], T=15.0, nobs=30, box=[(0.01 / 0.075, 1.0 / 0.075)])),
+        # a box that excludes the generating parameters (a bound is active at the optimum): the answer stays inside
+        gen_fit_case(r, ["SIR"], "random", dict(obs=["I", "R"], target=["beta", "gamma"], loss="SquareLoss", box=[(0.5, 0.9), (0.7, 1.6)],
+                                                start=[0.8, 1.2])),
+        gen_fit_case(r, ["SIR"], "random", dict(obs=["I"], target=["beta", "gamma"], loss="SquareLoss", box=[(0.6, 1.5), (1.08, 1.9)],
+                                                start=[1.2, 1.3])),
         # a forced model observed from a time that is not a multiple of the forcing period; a tiny seed in proportions
         gen_fit_case(r, ["SIS_Periodic"], "truth", dict(obs=["I"], target=["beta0", "delta"], loss="SquareLoss", t_shift=3.0)),
         gen_fit_case(r, ["SIS_Periodic"], "random", dict(obs=["S", "I"], target=["gamma", "beta0"], loss="NormalLoss", t_shift=3.0)),
